@@ -19,6 +19,7 @@ def main():
     ap.add_argument("--unit", default=None)
     ap.add_argument("--replay", default=None)
     ap.add_argument("--list", action="store_true")
+    ap.add_argument("--selftest", action="store_true", help="apply the mutant corpus of this property in a scratch copy; every mutant must fail the expected obligation")
     a = ap.parse_args()
     seed = int(os.environ.get("VERIF_SEED", "0") or 0)
     from . import runner, units
@@ -32,7 +33,50 @@ def main():
         return replay(a.replay)
     if not a.prop:
         ap.error("property id required")
-    return runner.check_property(a.prop, tier=a.tier, seed=seed, only_unit=a.unit)
+    if a.selftest:
+        return selftest(a.prop)
+    rc = runner.check_property(a.prop, tier=a.tier, seed=seed, only_unit=a.unit)
+    if rc == 0 and a.tier == "thorough" and a.unit is None and not os.environ.get("FVC_REPO"):
+        rc2 = selftest(a.prop)
+        if rc2 != 0:
+            print(f"CHECKER-ERROR mutation self-test of {a.prop} failed: a corpus mutant was not detected")
+            return 3
+    return rc
+
+
+def selftest(prop):
+    """design 1.8: every corpus mutant tagged with this property must make the check exit 1 with a VIOLATION of
+    the expected obligation.  Runs on scratch copies of /repo's flodym package (removed afterwards)."""
+    import shutil
+    import subprocess
+    import tempfile
+
+    here = os.path.dirname(os.path.dirname(os.path.abspath(__file__)))
+    idx = json.load(open(os.path.join(here, "mutants", "index.json")))
+    bad = 0
+    n = 0
+    for m in idx:
+        if m["prop"] != prop:
+            continue
+        n += 1
+        scratch = tempfile.mkdtemp(prefix="fvc_mutant_")
+        try:
+            shutil.copytree("/repo/flodym", os.path.join(scratch, "flodym"))
+            r = subprocess.run(["patch", "-p1", "-s", "-d", scratch, "-i", os.path.join(here, "mutants", m["patch"])], capture_output=True, text=True)
+            if r.returncode != 0:
+                print(f"SELFTEST {m['patch']}: patch does not apply to the current tree (skipped): {r.stdout.strip()[:120]}")
+                continue
+            env = dict(os.environ, FVC_REPO=scratch, FVC_EVIDENCE_DIR=os.path.join(scratch, "evidence"), FVC_REPLAY_DIR=os.path.join(scratch, "replays"))
+            r = subprocess.run([os.path.join(here, "check"), prop, "--tier", "quick", "--unit", m["unit"]], capture_output=True, text=True, env=env)
+            viol = [l for l in r.stdout.splitlines() if l.startswith("VIOLATION")]
+            ok = r.returncode == 1 and any(any(e.replace("[", "_").replace("]", "_") in v or e in v for e in m["expect"]) for v in viol)
+            print(f"SELFTEST {m['patch']} on {m['unit']}: exit={r.returncode} violations={len(viol)} -> {'detected' if ok else 'NOT DETECTED'}")
+            if not ok:
+                bad += 1
+        finally:
+            shutil.rmtree(scratch, ignore_errors=True)
+    print(f"SELFTEST {prop}: {n} mutants, {bad} not detected")
+    return 0 if bad == 0 else 3
 
 
 def replay(path):
